@@ -161,6 +161,14 @@ def r23(ctx):
                        what="revoke_previous_holder_commitment advances (and discloses a new revocation secret) "
                             "although a holder/closing signature was already released (channel_closed): history "
                             "validate n+1, sign n, revoke n yields commitment n both signed and revoked")
+    # the advance is what gets stored: Channel::persist in this function runs only after the advance (a record written
+    # before it still has the old counter: after a restart the revoked commitment is signable again)
+    advb = {bi for bi, _ in adv}
+    for bi, ln, c in R.call_blocks(fv, lambda n: n == f"{CH}::persist"):
+        ctx.ob("R2.3", bi not in fv.reach(0, cut_nodes=advb), f"{b.name}/persist-after-advance",
+               "revoke_previous_holder_commitment can persist the channel before the counter advance and the secret release: the "
+               "stored state does not know the revocation, and a restarted signer signs the revoked commitment",
+               where=f"{b.file}:{ln}", sample="persist dominated by advance_holder_commitment_state")
     # also the take() of the stored info happens only when not closed (no state change on refusal)
     # activate_initial_commitment: advancing 0 -> 1 discloses nothing (no predecessor) : recorded
     ctx.sample("R2.3", "activate_initial_commitment", "channel.rs", "initial activation discloses no secret (n=0 has no predecessor)")
